@@ -148,6 +148,21 @@ def link_pointers(f):
                 t = X.strip(r["ch"][0])
                 if t.get("k") == "member" and t.get("n") in ("head", "next", "tail", "prev"):
                     res.setdefault(l["d"], set()).add(t["n"])
+    # a parameter that receives the address of a link at the call sites in the same file (unlink(&self->head, &self->tail, node))
+    unit_ = getattr(f, "unit", None)
+    if unit_ is not None and f.params:
+        for g in unit_.functions.values():
+            if g.body is None or g is f:
+                continue
+            for c in X.calls_in(g.body):
+                if X.callee_name(c) != f.name:
+                    continue
+                for j, a in enumerate(c["ch"][1:]):
+                    a = X.strip(a)
+                    if j < len(f.params) and a is not None and a.get("k") == "un" and a.get("op") == "&":
+                        t = X.strip(a["ch"][0])
+                        if t is not None and t.get("k") == "member" and t.get("n") in ("head", "next", "tail", "prev"):
+                            res.setdefault(f.params[j]["d"], set()).add(t["n"])
     return res
 
 
@@ -1365,6 +1380,8 @@ def check_chain_derefs(chk, prog, unit, only=None):
             if base.get("k") == "member" and X.strip(base["ch"][0]).get("d") in g.foreign:
                 return
             ok = g.known_nonnull(st, base)
+            if not ok and g.tainted(st):
+                ok = True             # reached through a test this analysis has no model of: undecided, not reported
             if not ok and g.pos(base) is None and X.apath(base) is not None and ("nn", X.apath(base)) in tested.get(n["i"], ()):
                 ok = True             # (only where the position analysis has nothing to say about the pointer)
             key = canon(f, n)
